@@ -348,6 +348,43 @@ theorem process_ikrx (s : State) (u : Nat) (h : Hdr) : IKRX u s (processMessage 
                 (sendInfo_ikr cfg _ _ u)
             · exact (logTop_ikr cfg _ 10 s).trans (fwdTop_ikr cfg _ _ _)
 
+/-- handling a frame that is no (un)subscribe request changes nobody's subscriptions -/
+theorem process_ikr_nosub (p : Nat → Bool) (s : State) (u : Nat) (h : Hdr)
+    (hns : (h.mtype == cfg.mtConnect || h.mtype == cfg.mtConnectV2) = true ∨ (h.mtype == cfg.mtDisconnect) = true ∨
+      ((h.mtype == cfg.mtSubscribe || h.mtype == cfg.mtResume) = false ∧ (h.mtype == cfg.mtUnsubscribe || h.mtype == cfg.mtPause) = false)) :
+    IKR p s (processMessage cfg s u h) := by
+  unfold processMessage
+  dsimp only
+  split
+  · have hc := connect_ikr cfg p s u h
+    generalize connectModule cfg s u h = r at hc
+    obtain ⟨s1, okb⟩ := r
+    simp only at hc ⊢
+    split
+    · exact ((hc.trans (sendAck_ikr cfg _ s1 u)).trans (infoOf_ikr cfg _ _ _)).trans (logTop_ikr cfg _ 20 _)
+    · exact hc
+  · rename_i hc
+    split
+    · exact (removeTop_ikr cfg _ s u).trans (logTop_ikr cfg _ 20 _)
+    · rename_i hd
+      have h12 : (h.mtype == cfg.mtSubscribe || h.mtype == cfg.mtResume) = false ∧ (h.mtype == cfg.mtUnsubscribe || h.mtype == cfg.mtPause) = false := by
+        rcases hns with h1 | h1 | h1
+        · exact absurd h1 hc
+        · exact absurd h1 hd
+        · exact h1
+      simp only [h12.1, h12.2, Bool.false_eq_true, if_false]
+      split
+      · split
+        · exact (logTop_ikr cfg _ 40 s).trans (removeTop_ikr cfg _ _ u)
+        · rename_i nm _
+          exact ((ikr_upd _ s u (fun m => { m with name := nm }) (fun _ => rfl) (fun _ => rfl) (fun _ hc => hc)).trans
+            (logTop_ikr cfg _ 20 _)).trans (infoOf_ikr cfg _ _ _)
+      · split
+        · exact (ikr_upd _ s u (fun m => { m with pid := bufI32 s.buf 0 }) (fun _ => rfl) (fun _ => rfl) (fun _ hc => hc)).trans
+            (sendInfo_ikr cfg _ _ u)
+        · exact (logTop_ikr cfg _ 10 s).trans (fwdTop_ikr cfg _ _ _)
+
+
 theorem foldl_fwd_ikr (p : Nat → Bool) : ∀ (fs : List Frame) (s : State), IKR p s (fs.foldl (fwdTop cfg) s)
   | [], s => IKR.refl p s
   | f :: rest, s => by simp only [List.foldl_cons]; exact (fwdTop_ikr cfg p s f).trans (foldl_fwd_ikr p rest _)
